@@ -12,6 +12,7 @@ import (
 	"strconv"
 	"strings"
 	"sync"
+	"syscall"
 	"time"
 
 	"github.com/rogpeppe/go-internal/testscript"
@@ -164,6 +165,29 @@ var workSeq struct {
 	n int
 }
 
+const scriptHang = 40 * time.Second
+
+// killBelow kills every process whose current directory is dir or below it.
+func killBelow(dir string) {
+	ents, err := os.ReadDir("/proc")
+	if err != nil {
+		return
+	}
+	for _, e := range ents {
+		pid, err := strconv.Atoi(e.Name())
+		if err != nil || pid == os.Getpid() {
+			continue
+		}
+		cwd, err := os.Readlink("/proc/" + e.Name() + "/cwd")
+		if err != nil {
+			continue
+		}
+		if cwd == dir || strings.HasPrefix(cwd, dir+"/") {
+			syscall.Kill(pid, syscall.SIGKILL)
+		}
+	}
+}
+
 // runScript runs one script file through the real RunT and collects everything
 // the property talks about.  The work tree is removed afterwards.
 func runScript(root, name string, text []byte, cfg config) (res runResult) {
@@ -197,6 +221,13 @@ func runScript(root, name string, text []byte, cfg config) (res runResult) {
 			mu.Lock()
 			effects = append(effects, o)
 			mu.Unlock()
+		}
+	}
+	if cfg.Cmds["probe"] {
+		// Params.Cmds is only consulted for commands that are not part of the standard set: entries named like standard
+		// commands never run (these would turn every exists / grep / stop / cmp line into a line that just passes)
+		for _, std := range []string{"exists", "grep", "stop", "cmp", "skip", "rm"} {
+			cmds[std] = func(ts *testscript.TestScript, neg bool, args []string) {}
 		}
 	}
 	if cfg.Cmds["cfail"] {
@@ -238,7 +269,10 @@ func runScript(root, name string, text []byte, cfg config) (res runResult) {
 		}
 	}
 	t := &recT{}
-	func() {
+	finished := make(chan struct{})
+	hung := false
+	go func() {
+		defer close(finished)
 		defer func() {
 			if e := recover(); e != nil {
 				t.verdict = "panic"
@@ -247,7 +281,27 @@ func runScript(root, name string, text []byte, cfg config) (res runResult) {
 		}()
 		testscript.RunT(t, p)
 	}()
+	// no script of the fragment waits for anything that does not end by itself: a run that is still going after
+	// scriptHang is stuck.  Its helper processes (their current directory is below the script's directory) are killed
+	// so that it comes to an end, and it is reported as hung.
+	func() {
+		tm := time.NewTimer(scriptHang)
+		defer tm.Stop()
+		for {
+			select {
+			case <-finished:
+				return
+			case <-tm.C:
+				hung = true
+				killBelow(dir)
+				tm.Reset(time.Second)
+			}
+		}
+	}()
 	res.Verdict = t.verdict
+	if hung {
+		res.Verdict = "hang"
+	}
 	if t.ran != 1 && res.Verdict != "panic" {
 		res.Verdict = "driver-error"
 		res.Panic = fmt.Sprintf("RunT started %d subtests", t.ran)
